@@ -110,6 +110,11 @@ func (f *File) Close() error {
 
 	if f.wr != nil {
 		ret := f.wr.Close()
+		if ret != nil {
+			// The body is incomplete: leave the placeholder header in place
+			// so that the entry can never be opened.
+			return ret
+		}
 
 		if _, err := f.f.Seek(int64(f.h.Size())*3, io.SeekStart); ret == nil {
 			ret = err
